@@ -126,6 +126,7 @@ def module_path(modname: str) -> str:
 def extract(qualname: str) -> Extracted:
     """qualname: 'biobalm.space_utils.intersect', 'biobalm.succession_diagram.SuccessionDiagram._ensure_node',
     nested defs: 'biobalm.trappist_core.trappist.save_result'."""
+    qualname = qualname.split("#")[0]      # `name#variant`: a second contract of the same function (another parameter typing)
     parts = qualname.split(".")
     # longest prefix that is a module file
     for i in range(len(parts), 0, -1):
